@@ -9,15 +9,17 @@ for id in $IDS; do
   [ -f $D/patch.diff ] || continue
   PROP=${id%%-*}
   cd /repo; [ -z "$(git status --porcelain)" ] || { echo "/repo not clean"; exit 2; }
-  if ! git apply --check $D/patch.diff 2>/dev/null; then
-    if ! git apply --3way $D/patch.diff 2>/dev/null; then echo "$id: patch does not apply to the current tree"; git checkout -q -- . ; python3 - $D <<'P'
+  if git apply --check $D/patch.diff 2>/dev/null; then
+    git apply $D/patch.diff
+  elif git apply --check -C1 $D/patch.diff 2>/dev/null; then
+    git apply -C1 $D/patch.diff
+  else
+    echo "$id: patch does not apply to the current tree"
+    python3 - $D <<'P'
 import json,sys
 p=sys.argv[1]+'/meta.json'; m=json.load(open(p)); m['detection_note']='patch no longer applies to the repaired tree (the changed lines were rewritten by a fix)'; json.dump(m,open(p,'w'),indent=1)
 P
-      continue; fi
-    git reset -q
-  else
-    git apply $D/patch.diff
+    continue
   fi
   ALSO=$(python3 -c "import json;print(' '.join(json.load(open('$D/meta.json')).get('also_check',[])))")
   for P in $PROP $ALSO; do
